@@ -3,7 +3,8 @@
    All statements are about the R instance of the model functions [lu] and [plu]
    of Model/LU.v (the functions that are extracted and run against the Rust code);
    rounding (finiteness, the n*eps*|L||U| bound, "well-scaled non-singular matrices
-   are always factored") is measured by the correspondence oracle, not proved.
+   are always factored") is measured by the correspondence oracle; for [lu] the n*eps*|L||U|
+   bound is also PROVED for the binary64 instance at the end of this file (Proofs/LUFloat.v).
    Vocabulary (Proofs/LU.v): [msum lo len f] = f lo + .. + f (lo+len-1);
    [mprod n A B i j] = sum_t A i t * B t j;  [unit_lower], [upper_tri];
    [is_perm_mat n P]: P i j = [j = s i] for a permutation s of 0..n-1;
@@ -122,3 +123,57 @@ Example c09_nonvacuous_lu : exists L U, lu 2 2 ex_lu = Ok (L, U).
 Proof. exact Proofs.LU.ex_lu_ok. Qed.
 Example c09_nonvacuous_zero_minor : (0 < 1 < 2)%nat /\ left_null 1 ex_swap (fun _ => 1).
 Proof. split; [lia|exact Proofs.LU.ex_swap_left_null]. Qed.
+
+(* ---------------------------------------------------------------------------------------------
+   Floating point (binary64 instance [@lu float FNum], the function that is extracted and run
+   against lu.rs): the rounding clause "L U equals A to within n*eps*|L||U|" as a theorem.
+   Bridge: Flocq's [B2R (Prim2B x)]; eps = 2^-53; proofs in Proofs/LUFloat.v.
+   [lu_entry_ok A L U i k] (stated on the RETURNED factors, checkable by computation): with
+   m = min i k, A_ik is finite, every product L_ij * U_jk (j < m) is [okmul] (finite, exact value
+   zero or >= 2^-1022 in magnitude), every partial sum of the inner product is finite, the
+   subtraction A_ik - total is finite and, for k < i, the division by the pivot U_kk is [okdiv].
+   --------------------------------------------------------------------------------------------- *)
+From Coq Require Import Floats.
+From Flocq Require Import Core BinarySingleNaN PrimFloat.
+From SV Require Import Proofs.StatsFloat Proofs.PolyFloat Proofs.SubstFloat Proofs.LUFloat.
+
+(* any Num instance (in particular the float one): the returned factors satisfy the Doolittle
+   recurrences entry by entry in the arithmetic of the instance, and are n0 / n1 elsewhere *)
+Theorem c09_lu_recurrences : forall (T : Type) (NT : Num T) (n : nat) (A L U : mat T),
+  lu n n A = Ok (L, U) -> GInv n A n L U.
+Proof. exact (@Proofs.LUFloat.lu_ok_GInv). Qed.
+Check c09_lu_recurrences : forall (T : Type) (NT : Num T) (n : nat) (A L U : mat T),
+  lu n n A = Ok (L, U) -> GInv n A n L U.
+Print Assumptions c09_lu_recurrences.
+
+(* componentwise backward error |L U - A| <= ((1+eps)^n - 1) |L| |U|; all entries of L, U finite *)
+Theorem c09_lu_float_backward_error : forall (n : nat) (A L U : mat PrimFloat.float),
+  lu n n A = Ok (L, U) ->
+  (forall i k, (i < n)%nat -> (k < n)%nat -> lu_entry_ok A L U i k) ->
+  forall i k, (i < n)%nat -> (k < n)%nat ->
+    is_finite (Prim2B (L i k)) = true /\ is_finite (Prim2B (U i k)) = true /\
+    Rabs (mprod n (fun r c => B2R (Prim2B (L r c))) (fun r c => B2R (Prim2B (U r c))) i k
+          - B2R (Prim2B (A i k)))
+    <= ((1 + bpow radix2 (-53)) ^ n - 1)
+       * mprod n (fun r c => Rabs (B2R (Prim2B (L r c)))) (fun r c => Rabs (B2R (Prim2B (U r c)))) i k.
+Proof. exact Proofs.LUFloat.lu_float_backward_error. Qed.
+Check c09_lu_float_backward_error : forall (n : nat) (A L U : mat PrimFloat.float),
+  lu n n A = Ok (L, U) ->
+  (forall i k, (i < n)%nat -> (k < n)%nat -> lu_entry_ok A L U i k) ->
+  forall i k, (i < n)%nat -> (k < n)%nat ->
+    is_finite (Prim2B (L i k)) = true /\ is_finite (Prim2B (U i k)) = true /\
+    Rabs (mprod n (fun r c => B2R (Prim2B (L r c))) (fun r c => B2R (Prim2B (U r c))) i k
+          - B2R (Prim2B (A i k)))
+    <= ((1 + bpow radix2 (-53)) ^ n - 1)
+       * mprod n (fun r c => Rabs (B2R (Prim2B (L r c)))) (fun r c => Rabs (B2R (Prim2B (U r c)))) i k.
+Print Assumptions c09_lu_float_backward_error.
+
+(* non-vacuity, by computation: [[2,1,1],[4,3,3],[8,7,9]] is factored and its factors meet every
+   hypothesis of c09_lu_float_backward_error *)
+Example c09_nonvacuous_lu_float : exists L U,
+  lu 3 3 (mat_of_lists [[0x1p+1; 0x1p+0; 0x1p+0]; [0x1p+2; 0x1.8p+1; 0x1.8p+1]; [0x1p+3; 0x1.cp+2; 0x1.2p+3]]%float)
+    = Ok (L, U) /\
+  forall i k, (i < 3)%nat -> (k < 3)%nat ->
+    lu_entry_ok (mat_of_lists [[0x1p+1; 0x1p+0; 0x1p+0]; [0x1p+2; 0x1.8p+1; 0x1.8p+1]; [0x1p+3; 0x1.cp+2; 0x1.2p+3]]%float)
+                L U i k.
+Proof. exact Proofs.LUFloat.ex_lu_float_hyps. Qed.
